@@ -94,6 +94,13 @@ impl Monitor for Mon {
                         }
                     }
                 }
+                _ if s.res.ok && s.pre.v[*v].state.total_position_size != s.post.v[*v].state.total_position_size && s.pre.pos[*v][*t].as_ref().map(|p| p.size) == s.post.pos[*v][*t].as_ref().map(|p| p.size) => {
+                    // the vAMM traded the position away but the engine's record is what it was
+                    return Some(Violation::new(
+                        "position_survives_close",
+                        format!("ClosePosition succeeded and the vAMM's net position moved {} -> {}, but the trader's recorded size is still {}", s.pre.v[*v].state.total_position_size, s.post.v[*v].state.total_position_size, pr.size),
+                    ));
+                }
                 _ => {
                     if !s.res.ok && s.res.err.contains("bad debt") {
                         self.interesting += 1;
